@@ -50,7 +50,8 @@ DIGITS = ["alt", [["lit", d] for d in "0123456789"]]
 @st.composite
 def template_specs(draw: Any) -> dict[str, Any]:
     """Hand-shaped families that make the repair operators fire."""
-    fam = draw(st.sampled_from(["crep", "eq", "gen", "crep_nested", "parity", "nested_same", "nested_same", "crep_outside", "crep_outside"]))
+    fam = draw(st.sampled_from(["crep", "eq", "gen", "crep_nested", "parity", "nested_same", "nested_same", "crep_outside", "crep_outside",
+                                "nested_eq", "nested_eq"]))
     lo = draw(st.integers(0, 2))
     item = draw(st.sampled_from([
         ["alt", [["lit", "a"], ["seq", [["lit", "b"], ["opt", ["nt", "item"]]]]]],
@@ -58,6 +59,26 @@ def template_specs(draw: Any) -> dict[str, Any]:
         ["rx", "[ab]{1,2}"],
         ["alt", [["lit", "p"], ["lit", "q"]]],
     ]))
+    if fam == "nested_eq":
+        # two equality constraints whose targets are NESTED (a symbol and one below it), with alternatives of
+        # different shape: one repair call then carries several replacements, one inside the other
+        letters = draw(st.sampled_from(["abc", "ab", "abcd"]))
+        inner = ["alt", [["lit", c] for c in letters[:2]]]
+        x = ["alt", [["lit", letters[0]], ["lit", letters[-1]]]]
+        outer = draw(st.sampled_from([
+            ["alt", [["seq", [["nt", "inner"], ["nt", "x"]]], ["seq", [["nt", "x"], ["nt", "inner"]]]]],
+            ["alt", [["seq", [["nt", "inner"], ["nt", "x"], ["nt", "inner"]]], ["seq", [["nt", "x"], ["nt", "inner"]]]]],
+            ["alt", [["nt", "inner"], ["seq", [["nt", "x"], ["nt", "x"], ["nt", "inner"]]]]],
+        ]))
+        rules = [["start", ["nt", "outer"]], ["outer", outer], ["inner", inner], ["x", x]]
+        spec0 = {"rules": rules, "mode": "text", "alphabet": letters}
+        sem = S.Sem(spec0)
+        wo = sem.enumerate_words("outer", max_len=4, cap=40)
+        wi = sem.enumerate_words("inner", max_len=2, cap=10)
+        cons = [f"str(<outer>) == {wo[draw(st.integers(0, len(wo) - 1))]!r}", f"str(<inner>) == {wi[draw(st.integers(0, len(wi) - 1))]!r}"]
+        if draw(st.booleans()):
+            cons.append(f"str(<x>) == {letters[0]!r}")
+        return dict(spec0, constraints=cons, family=fam)
     if fam == "nested_same":
         # the same postfix operator nested in itself, under symbols that equality repairs re-parse
         op = draw(st.sampled_from(["opt", "star", "plus"]))
@@ -292,7 +313,7 @@ def check_case(case: dict[str, Any], ctx: Any = None) -> list[str]:
 
 def run_shard(ctx: Any) -> None:
     n_plain = 12 if ctx.tier == "quick" else 300
-    n_search = 12 if ctx.tier == "quick" else 300
+    n_search = 24 if ctx.tier == "quick" else 300
 
     @given(plain_cases())
     def test_plain(case: dict[str, Any]) -> None:
